@@ -6,31 +6,71 @@ namespace HmsProofs.Sim
 open Hms.Core Hms.Core.Comp Hms.Core.VM
 
 /-- Variables of the code of an expression are the resolutions of its identifiers. -/
+theorem codeVars_litTests (sp : Span) (name : String) : ∀ (lits : List Expr), codeVars (litTests sp name lits) = [] := by
+  intro lits
+  induction lits with
+  | nil => rfl
+  | cons l ls ih =>
+    have hl : codeVars (litCode l) = [] := by cases l <;> rfl
+    simp only [litTests, codeVars_append, hl, ih, List.append_nil, List.nil_append]
+    rfl
+
+theorem codeVars_armTests (mod : String) (sp : Span) : ∀ (arms : List (List Expr × Expr)) (lm : LM),
+    codeVars (armTests mod sp arms lm).1 = [] := by
+  intro arms
+  induction arms with
+  | nil => intro lm; rfl
+  | cons a rest ih =>
+    intro lm
+    simp only [armTests, codeVars_append, codeVars_litTests, ih, List.append_nil]
+
 theorem codeVars_cgE (mod : String) (ρ φ : String → Option String) : ∀ (n : Nat),
     (∀ (e : Expr) (lm : LM), Frag.depthGE e ≤ n →
       ∀ m ∈ codeVars (cgE mod ρ φ e lm).1, ∃ x ∈ Frag.varsGE e, ρ x = some m) ∧
     (∀ (b : Block) (lm : LM), Frag.depthGB b ≤ n →
       ∀ m ∈ codeVars (cgB mod ρ φ b lm).1, ∃ x ∈ Frag.varsGB b, ρ x = some m) ∧
     (∀ (args : List (String × Expr)) (lm : LM), Frag.depthGArgs args ≤ n →
-      ∀ m ∈ codeVars (cgArgs mod ρ φ args lm).1, ∃ x ∈ Frag.varsGArgs args, ρ x = some m) := by
+      ∀ m ∈ codeVars (cgArgs mod ρ φ args lm).1, ∃ x ∈ Frag.varsGArgs args, ρ x = some m) ∧
+    (∀ (sp : Span) (after : String) (arms : List (List Expr × Expr)) (nms : List String) (lm : LM),
+      Frag.depthGArms arms ≤ n →
+      ∀ m ∈ codeVars (cgArms mod ρ φ sp after arms nms lm).1, ∃ x ∈ Frag.varsGArms arms, ρ x = some m) := by
   intro n
   induction n with
   | zero =>
-    refine ⟨?_, ?_, ?_⟩
+    refine ⟨?_, ?_, ?_, ?_⟩
     · intro e lm hd; have := depthGE_pos e; omega
     · intro b lm hd
       obtain ⟨sp, ty, stmts, oe⟩ := b
       cases oe <;> simp [Frag.depthGB] at hd
     · intro args lm hd
       cases args <;> simp [Frag.depthGArgs] at hd
+    · intro sp after arms nms lm hd
+      cases arms <;> simp [Frag.depthGArms] at hd
   | succ n ih =>
-    obtain ⟨ihE, ihB, ihA⟩ := ih
-    refine ⟨?_, ?_, ?_⟩
+    obtain ⟨ihE, ihB, ihA, ihM⟩ := ih
+    refine ⟨?_, ?_, ?_, ?_⟩
     · intro e lm hd m hm
       cases e
       case int | bool | str | null | none | float | range | list | anyobj | obj | lambda | assign
-          | index | member | cast | blockE | matchE | tryE =>
+          | index | member | cast | blockE | tryE =>
         simp [cgE, codeVars, var?] at hm
+      case matchE sp ty c arms dflt =>
+        cases dflt with
+        | none => simp [cgE, codeVars] at hm
+        | some d =>
+          simp only [Frag.depthGE] at hd
+          simp only [cgE, codeVars_append, codeVars_armTests, List.mem_append] at hm
+          rcases hm with (((((hm | hm) | hm) | hm) | hm) | hm) | hm
+          · obtain ⟨x, hx, h⟩ := ihE c lm (by omega) m hm
+            exact ⟨x, by simp [Frag.varsGE, hx], h⟩
+          · simp at hm
+          · simp [codeVars, var?] at hm
+          · obtain ⟨x, hx, h⟩ := ihM _ _ arms _ _ (by omega) m hm
+            exact ⟨x, by simp [Frag.varsGE, hx], h⟩
+          · simp [codeVars, var?] at hm
+          · obtain ⟨x, hx, h⟩ := ihE d _ (by omega) m hm
+            exact ⟨x, by simp [Frag.varsGE, hx], h⟩
+          · simp [codeVars, var?] at hm
       case grouped sp e =>
         rw [cgE] at hm
         exact ihE e lm (by simp only [Frag.depthGE] at hd; omega) m hm
@@ -128,6 +168,22 @@ theorem codeVars_cgE (mod : String) (ρ φ : String → Option String) : ∀ (n 
           exact ⟨x, by simp [Frag.varsGArgs, hx], h⟩
         · obtain ⟨x, hx, h⟩ := ihE a.2 _ (by omega) m hm
           exact ⟨x, by simp [Frag.varsGArgs, hx], h⟩
+    · intro sp after arms nms lm hd m hm
+      cases arms with
+      | nil => simp [cgArms, codeVars] at hm
+      | cons a rest =>
+        cases nms with
+        | nil => simp [cgArms, codeVars] at hm
+        | cons nm nms =>
+          simp only [Frag.depthGArms] at hd
+          simp only [cgArms, codeVars_append, List.mem_append] at hm
+          rcases hm with ((hm | hm) | hm) | hm
+          · simp [codeVars, var?] at hm
+          · obtain ⟨x, hx, h⟩ := ihE a.2 _ (by omega) m hm
+            exact ⟨x, by simp [Frag.varsGArms, hx], h⟩
+          · simp [codeVars, var?] at hm
+          · obtain ⟨x, hx, h⟩ := ihM sp after rest nms _ (by omega) m hm
+            exact ⟨x, by simp [Frag.varsGArms, hx], h⟩
 
 theorem codeVars_cgE_live (mod : String) (φ : String → Option String) (T : List String) (cs : CScopes) (e : Expr)
     (lm : LM) (hT : ∀ x ∈ Frag.varsGE e, x ∈ T) :
@@ -140,7 +196,7 @@ theorem codeVars_cgArgs_live (mod : String) (φ : String → Option String) (T :
     (args : List (String × Expr)) (lm : LM) (hT : ∀ x ∈ Frag.varsGArgs args, x ∈ T) :
     ∀ m ∈ codeVars (cgArgs mod (ρS cs) φ args lm).1, m ∈ liveNames T cs := by
   intro m hm
-  obtain ⟨x, hx, h⟩ := (codeVars_cgE mod (ρS cs) φ (Frag.depthGArgs args)).2.2 args lm (Nat.le_refl _) m hm
+  obtain ⟨x, hx, h⟩ := (codeVars_cgE mod (ρS cs) φ (Frag.depthGArgs args)).2.2.1 args lm (Nat.le_refl _) m hm
   exact ρS_mem_liveNames T cs x m (hT x hx) h
 
 /-! ## Counting the names a block generates -/
@@ -389,6 +445,78 @@ theorem genG_stmt (mod fn : String) (φ : String → Option String) (T : List St
               · exact hlive m hm
               · simp [codeVars, var?] at hm
               · simp [codeVars, var?] at hm
+        case matchE msp ty c arms dflt =>
+          cases dflt with
+          | none => exact GenG.nil T env
+          | some d =>
+            cases d <;> try exact GenG.nil T env
+            rename_i db
+            simp only [Frag.depthGS] at hd
+            simp only [Frag.wsGS, Bool.and_eq_true] at hws
+            obtain ⟨⟨hvc, hwa⟩, hwd⟩ := hws
+            simp only [Frag.identsGS, List.mem_append] at hT
+            have hlive := hEl env c env.lm (fun x hx => hT x (Or.inl hx))
+            have harms : ∀ (arms : List (List Expr × Expr)) (after : String) (nms : List String) (env' : CEnv),
+                Frag.depthGArmsS arms ≤ n → (∀ x ∈ Frag.identsGArmsS arms, x ∈ T) →
+                Frag.wsGArmsS mod fn φ loops arms env' = true →
+                GenG T env' (cgArmsS mod fn φ loops msp after arms nms env').2
+                  (cgArmsS mod fn φ loops msp after arms nms env').1 := by
+              intro arms
+              induction arms with
+              | nil => intro after nms env' _ _ _; exact GenG.nil T env'
+              | cons a rest iha =>
+                intro after nms env' hda hTa hwsa
+                obtain ⟨lits, act⟩ := a
+                cases nms with
+                | nil => cases act <;> exact GenG.nil T env'
+                | cons nm nms =>
+                  cases act
+                  case blockE b =>
+                    simp only [Frag.depthGArmsS] at hda
+                    simp only [Frag.identsGArmsS, List.mem_append] at hTa
+                    simp only [Frag.wsGArmsS, Bool.and_eq_true] at hwsa
+                    simp only [cgArmsS]
+                    have g1 : GenG T env' env' [((Instr.label nm : SInstr), msp), (.drop, msp)] :=
+                      GenG.plain rfl rfl (by intro m hm; simp [codeVars, var?] at hm)
+                    have g2 := ihB loops b env' (by omega) (fun x hx => hTa x (Or.inl hx)) hwsa.1
+                    have g3 : GenG T (cgBS mod fn φ loops b env').2 (cgBS mod fn φ loops b env').2
+                        [((Instr.jump after : SInstr), msp)] :=
+                      GenG.plain rfl rfl (by intro m hm; simp [codeVars, var?] at hm)
+                    have g4 := iha after nms (cgBS mod fn φ loops b env').2 (by omega)
+                      (fun x hx => hTa x (Or.inr hx)) hwsa.2
+                    exact ((g1.trans g2).trans g3).trans g4
+                  all_goals
+                    simp only [Frag.depthGArmsS] at hda
+                    simp only [Frag.identsGArmsS] at hTa
+                    simp only [Frag.wsGArmsS] at hwsa
+                    simp only [cgArmsS]
+                    have g1 : GenG T env' env' [((Instr.label nm : SInstr), msp), (.drop, msp), (.jump after, msp)] :=
+                      GenG.plain rfl rfl (by intro m hm; simp [codeVars, var?] at hm)
+                    exact g1.trans (iha after nms env' hda hTa hwsa)
+            simp only [cgS]
+            generalize hC : cgE mod (ρS env.scopes) φ c env.lm = C at hwa hwd hlive ⊢
+            generalize hAf : freshLabel mod C.2 "match_after" = aft at hwa hwd ⊢
+            generalize hTs : armTests mod msp arms aft.2 = ts at hwa hwd ⊢
+            generalize hDf : freshLabel mod ts.2.2 "match_default" = dfl at hwa hwd ⊢
+            have h1 : GenG T env { env with lm := dfl.2 } (C.1 ++ ts.1 ++ [((Instr.jump dfl.1 : SInstr), msp)]) :=
+              GenG.plain rfl rfl (by
+                intro m hm
+                simp only [codeVars_append, List.mem_append] at hm
+                rcases hm with (hm | hm) | hm
+                · exact hlive m hm
+                · rw [← hTs, codeVars_armTests] at hm; simp at hm
+                · simp [codeVars, var?] at hm)
+            have h2 := harms arms aft.1 ts.2.1 { env with lm := dfl.2 } (by omega)
+              (fun x hx => hT x (Or.inr (Or.inl hx))) hwa
+            generalize hBs : cgArmsS mod fn φ loops msp aft.1 arms ts.2.1 { env with lm := dfl.2 } = bs at h2 hwd ⊢
+            have h3 : GenG T bs.2 bs.2 [((Instr.label dfl.1 : SInstr), msp), (.drop, msp)] :=
+              GenG.plain rfl rfl (by intro m hm; simp [codeVars, var?] at hm)
+            have h4 := ihB loops db bs.2 (by omega) (fun x hx => hT x (Or.inr (Or.inr hx))) hwd
+            generalize hDb : cgBS mod fn φ loops db bs.2 = cd at h4 ⊢
+            have h5 : GenG T cd.2 cd.2 [((Instr.jump aft.1 : SInstr), msp), (.label aft.1, msp)] :=
+              GenG.plain rfl rfl (by intro m hm; simp [codeVars, var?] at hm)
+            have := (((h1.trans h2).trans h3).trans h4).trans h5
+            simpa only [List.append_assoc] using this
         case tryE tsp ty t ci c =>
           obtain ⟨csp', cty', cstmts, coe⟩ := c
           cases coe with
